@@ -141,8 +141,9 @@ def main():
                             n += 1
                     continue
                 # destination: a path mentioned in README/meta ending with the file name
-                m = re.search(r"([\w./-]*/)" + re.escape(fn), readme + " " + json.dumps(meta))
-                rel = m.group(1) if m else ""
+                cands = re.findall(r"([\w./-]*/)" + re.escape(fn), readme + " " + json.dumps(meta))
+                good = [c for c in cands if re.search(r"(^|/)(pkg|cmd|internal|proto|util)/", c) and "SEEDED" not in c]
+                rel = (good or cands or [""])[0]
                 rel = re.sub(r"/tmp/seed\d?-C\d\d/", "", rel.replace(src + "/", "")).lstrip("/")
                 rel = re.sub(r"^.*?(pkg/|cmd/|internal/|proto/|util/)", r"\1", rel) if rel else rel
                 target = os.path.join(root, rel, fn)
